@@ -67,8 +67,28 @@ def generate():
             else:
                 flat.append(ast.unparse(st))
         body += "/-- Handler.emit under the handler lock -/\n"
-        body += "def emitCritical : List String := [%s]\n" % ", ".join(lean_str(x) for x in flat)
+        body += "def emitCritical : List String := [%s]\n\n" % ", ".join(lean_str(x) for x in flat)
+        # what travels through the queue is the formatted text with its record attached; the only part of a record
+        # loguru itself makes picklable is the exception (RecordException.__reduce__ / _from_pickled_value)
+        rtree, _ = parse_module("_recattrs.py")
+
+        def guard(fn_name, call):
+            fn = find_func(rtree, fn_name, cls="RecordException")
+            tries = [n for n in ast.walk(fn) if isinstance(n, ast.Try) and call in ast.unparse(n.body[0])]
+            if len(tries) != 1 or len(tries[0].body) != 1 or len(tries[0].handlers) != 1:
+                raise Unsupported("RecordException.%s: `%s` is not the single statement of one try/except" % (fn_name, call))
+            h = tries[0].handlers[0]
+            if any(isinstance(n, ast.Raise) for n in ast.walk(h)):
+                raise Unsupported("RecordException.%s: the except clause re-raises" % fn_name)
+            return h.type is None or ast.unparse(h.type) in ("Exception", "BaseException")
+
+        body += "/-- `RecordException.__reduce__` falls back to a value-less record for EVERY Exception raised by pickling the value -/\n"
+        body += "def reduceGuardsAll : Bool := %s\n" % ("true" if guard("__reduce__", "pickle.dumps(self.value)") else "false")
+        body += "/-- `__reduce__` drops an exception TYPE that cannot be pickled (fix F28) -/\n"
+        body += "def reduceGuardsType : Bool := %s\n" % ("true" if guard("__reduce__", "pickle.dumps(self.type)") else "false")
+        body += "/-- `_from_pickled_value` falls back likewise for every Exception raised by unpickling -/\n"
+        body += "def loadGuardsAll : Bool := %s\n" % ("true" if guard("_from_pickled_value", "pickle.loads(pickled_value)") else "false")
     except (Unsupported, SyntaxError, KeyError, AttributeError, IndexError) as e:
         errors.append("%s: %s" % (type(e).__name__, e))
     body += "\nend Queue.ShapeGen\n"
-    return emit("QueueShape", body, ["loguru/_handler.py"], errors)
+    return emit("QueueShape", body, ["loguru/_handler.py", "loguru/_recattrs.py"], errors)
